@@ -214,14 +214,14 @@ def r4_last_written_survive_close(repo=None):
     q = "DigitalRFWriter.close"
     g = m.cfg(q)
     dels = [n for n in g.nodes if isinstance(n.ast, ast.Delete) and "_channelObj" in n.label]
-    if len(dels) != 1:
+    if not dels:
         raise AnalysisError("close(): `del self._channelObj` not found")
     want = {"_last_file_written": "self.get_last_file_written", "_last_dir_written": "self.get_last_dir_written",
             "_last_utc_timestamp": "self.get_last_utc_timestamp"}
     for attr, getter in want.items():
         st = [n for n in g.nodes if isinstance(n.ast, ast.Assign) and pyfront.dotted(n.ast.targets[0]) == "self." + attr
               and isinstance(n.ast.value, ast.Call) and pyfront.call_name(n.ast.value) == getter]
-        if st and dels[0].id not in g.reach([g.entry.id], avoid=[x.id for x in st], skip_labels=("exc",)):
+        if st and not any(d.id in g.reach([g.entry.id], avoid=[x.id for x in st], skip_labels=("exc",)) for d in dels):
             r.ok("%s:%s %s self.%s" % (m.rel, st[0].line, q, attr), "cached from %s() before the channel object is deleted" % getter)
         else:
             r.violation(m.rel, q, "self.%s not cached before del self._channelObj" % attr, "the value is lost when the writer is "
